@@ -266,6 +266,18 @@ Proof.
   unfold vnth. rewrite (veq_nth_all _ _ HA i), (veq_nth_all _ _ HB j). rewrite !(wR nth_blk1) by assumption. reflexivity.
 Qed.
 
+Lemma perm_state_veq sys A B : veq A B -> veq (perm_state idx nl2 sys A) (perm_state idx nl2 sys B).
+Proof.
+  intros H.
+  assert (B1 : forall off, veq (blk1 idx nl2 off A) (blk1 idx nl2 off B))
+    by (intros off; unfold blk1; apply veq_tab_; intros i _; apply (veq_nth_all _ _ H)).
+  assert (B2 : forall off, veq (blk2 idx nl2 off A) (blk2 idx nl2 off B)).
+  { intros off. unfold blk2, tab2. induction (seq 0 (nN nl2)) as [|s l IH]; cbn [flat_map]; [constructor|].
+    apply veq_app; [|exact IH]. apply veq_tab_. intros i _. apply (veq_nth_all _ _ H). }
+  destruct sys as [|[|[|[|k]]]]; cbn [perm_state]; unfold perm_ibSIS, perm_ibSIR, perm_pbSIS, perm_pbSIR;
+    repeat apply veq_app; try apply B1; try apply B2. constructor.
+Qed.
+
 Theorem node_V0_equivariant sys X0 Y0 X0' Y0' :
   length X0 = n -> length Y0 = n -> veq X0' (blk1 idx nl2 0 X0) -> veq Y0' (blk1 idx nl2 0 Y0) ->
   veq (node_V0 sys G' nl' X0' Y0') (perm_state idx nl2 sys (node_V0 sys G nodelist X0 Y0)).
@@ -301,6 +313,47 @@ Theorem node_problem_equivariant sys X0 Y0 X0' Y0' :
      veq (rhs2_node sys G' nl' idx' tr' rc' V' t) (perm_state idx nl2 sys (rhs2_node sys G nodelist idx tr rc V t))).
 Proof.
   intros LX LY HX HY. split; [apply node_V0_equivariant; assumption|intros V V' t; apply node_rhs_equivariant].
+Qed.
+(* any per-node table transported along phi: [f(u) for u in nodelist] *)
+Lemma node_tab_equivariant (f f' : node -> Q) : (forall u, In u nodelist -> f' (phi u) = f u) ->
+  veq (map f' nl') (blk1 idx nl2 0 (map f nodelist)).
+Proof.
+  intros H. apply veq_of_nth; [rewrite !map_length, (wR blk1_length); apply (wR len2)|].
+  rewrite !map_length. change (length nl2) with (nN nl2). rewrite (wR len2). intros i Hi.
+  rewrite (wR nth_blk1) by exact Hi. cbn [Nat.add].
+  rewrite (nth_map_nodelist f) by (apply (wR nd2_in), Hi).
+  rewrite (nth_map_d f' nl' i 0%N 0) by (rewrite map_length; change (i < nN nl2)%nat; rewrite (wR len2); exact Hi).
+  change (nth i nl' 0%N) with (node_at nl' i). rewrite (wR nd'_eq i Hi). rewrite (H _ (wR nd2_in i Hi)). reflexivity.
+Qed.
+Lemma x0_sets_equivariant I0 R0 : incl I0 nodelist -> incl R0 nodelist ->
+  veq (x0_sets nl' (map phi I0) (map phi R0)) (blk1 idx nl2 0 (x0_sets nodelist I0 R0)).
+Proof.
+  intros HI HR. unfold x0_sets. apply node_tab_equivariant. intros u Hu.
+  rewrite (mem_map_inj phi nodelist (rl_inj _ _ _ _ _ _ _ _ _ _ _ R) u I0 Hu HI),
+          (mem_map_inj phi nodelist (rl_inj _ _ _ _ _ _ _ _ _ _ _ R) u R0 Hu HR). reflexivity.
+Qed.
+(* the *_pure_IC entry points: initial vector from renamed initial sets = re-ordered initial vector *)
+Theorem node_pure_IC_equivariant sys I0 R0 : incl I0 nodelist -> incl R0 nodelist ->
+  veq (node_V0 sys G' nl' (x0_sets nl' (map phi I0) (map phi R0)) (y0_set nl' (map phi I0)))
+      (perm_state idx nl2 sys (node_V0 sys G nodelist (x0_sets nodelist I0 R0) (y0_set nodelist I0))).
+Proof.
+  intros HI HR. apply node_V0_equivariant.
+  - unfold x0_sets. apply map_length.
+  - unfold y0_set. apply map_length.
+  - apply x0_sets_equivariant; assumption.
+  - apply y0_set_equivariant; assumption.
+Qed.
+
+(* solutions are mapped to solutions: if X (with claimed componentwise derivative dX) satisfies dX(t) = rhs(X(t), t) for
+   problem 1 then the re-ordered curve, whose componentwise derivative is the re-ordered dX (differentiation is linear),
+   satisfies it for problem 2.  Uniqueness of solutions (Picard-Lindelof, CITED) then gives solution' = perm_state solution. *)
+Definition solves (f : vec -> Q -> vec) (X dX : Q -> vec) : Prop := forall t, veq (dX t) (f (X t) t).
+Theorem node_maps_solutions_to_solutions sys X dX :
+  solves (rhs2_node sys G nodelist idx tr rc) X dX ->
+  solves (rhs2_node sys G' nl' idx' tr' rc') (fun t => perm_state idx nl2 sys (X t)) (fun t => perm_state idx nl2 sys (dX t)).
+Proof.
+  intros H t. cbv beta. symmetry. etransitivity; [apply node_rhs_equivariant; reflexivity|].
+  apply perm_state_veq. symmetry. apply H.
 Qed.
 End Top.
 
